@@ -70,7 +70,8 @@ def run(chk):
     rule_layout_total(chk)
     rule_include_depth(chk)
     rule_defined_eval(chk)
-    rule_admitted_kinds(chk)
+    if not rule_enum_kinds_eval(chk):
+        rule_admitted_kinds(chk)
     rule_elab_total(chk)
     rule_scope_walk(chk)
     rule_pipeline_props(chk)
@@ -192,15 +193,16 @@ def rule_unimpl(chk, reach):
     for b in f.bodies.values():
         if "mir" not in b:
             continue
-        owner = b.get("parent") or b["path"]
         cfg = M.Cfg(b)
-        sites = []
         for bb, t in cfg.calls():
             mac = t.get("mac") or ""
             cal = cfg.callee(t) or ""
             if cal.startswith("core::panicking") and ("todo" in mac.split("<") or "unimplemented" in mac.split("<")):
-                sites.append((t.get("ln") or 0, bb, t))
-        for i, (ln, bb, t) in enumerate(sorted(sites, key=lambda x: x[0])):
+                # (sites in a helper the reference tree does not know are listed under the function that calls it, after its own)
+                own_ = f.site_owner(b.get("parent") or b["path"])
+                per_fn.setdefault((b["crate"], own_), []).append(((b.get("parent") or b["path"]) != own_, b["file"], t.get("ln") or 0, bb, t, b))
+    for (crate_, owner), sites in sorted(per_fn.items()):
+        for i, (_h, _f, ln, bb, t, b) in enumerate(sorted(sites, key=lambda x: x[:3])):
             n += 1
             fn = short(owner)
             key = (b["crate"], fn, i)
@@ -269,7 +271,8 @@ def rule_arith(chk, reach):
             continue
         n_fn += 1
         tl = M.tainted_locals(cfg)
-        sites = []
+        own_ = f.site_owner(owner)
+        sites = per.setdefault((b["crate"], own_), [])
         for bb, kind, ln, ops in ab + unwraps:
             locs = [M._place_local(M.op_place(o)) for o in ops if M.op_place(o) is not None]
             if not any(l in tl for l in locs):
@@ -278,10 +281,13 @@ def rule_arith(chk, reach):
                 continue
             if kind.startswith(("Overflow(Add)", "Overflow(Sub)", "Overflow(Mul)")) and " via " not in kind and M.bounded_by_bool_cast(cfg, ops):
                 continue      # (bool as int) op small constant cannot overflow
-            sites.append((ln or 0, kind.split(" via ")[0]))
-        for i, (ln, kind) in enumerate(sorted(sites)):
+            sites.append((owner != own_, b["file"], ln or 0, kind.split(" via ")[0], b))
+    for (crate_, owner), sites in sorted(per.items()):
+        # (sites in a helper the reference tree does not know are listed under the function that calls it, after its own)
+        sites = sorted(sites, key=lambda x: x[:4])
+        for i, (_h, _f, ln, kind, b) in enumerate(sites):
             fn = short(owner)
-            kstr = "C08.arith/%s/%s/%s#%d" % (b["crate"], fn, kind, sum(1 for l2, k2 in sorted(sites)[:i] if k2 == kind))
+            kstr = "C08.arith/%s/%s/%s#%d" % (b["crate"], fn, kind, sum(1 for x2 in sites[:i] if x2[3] == kind))
             if kstr in NOT_DEMONSTRABLE:
                 chk.ob(kstr, True, "tainted but not demonstrable: " + NOT_DEMONSTRABLE[kstr], where(b, ln))
                 continue
@@ -939,6 +945,46 @@ def rule_strslice(chk, reach):
 
 
 # ------------------------------------------------------------------ admitted kinds vs handled kinds
+
+def rule_enum_kinds_eval(chk):
+    """The enum definition read as a table (c13.enum_run): for every scalar type an explicit enumerator of that type
+    followed by one without a value is either accepted or refused with a diagnostic - it never aborts (the allow-list of
+    initialiser types and the auto-increment match must agree). True when readable; the contradiction rule over the two
+    matches (rule_admitted_kinds) is the fallback."""
+    import c13
+    import interp as I
+    f = chk.facts
+    fn = f.fn("parse_rootdefinition_enum", "rssl_typer")
+    st = f.adt("ScalarType", "rssl_ir")
+    cn = f.adt("Constant", "rssl_ir")
+    if not (fn and st and cn):
+        return False
+    consts = {v["name"] for v in cn["variants"]}
+    S2C = {"IntLiteral": "IntLiteral", "FloatLiteral": "FloatLiteral"}
+    kinds = {}
+    for i, v in enumerate(st["variants"]):
+        c = S2C.get(v["name"], v["name"])
+        if c in consts:
+            kinds[c] = 10 + i
+    kind_ty = dict(c13.ENUM_KIND_TY)
+    for k, t in kinds.items():
+        kind_ty.setdefault(k, t)
+    n = 0
+    owner = short(fn["path"])
+    for k in sorted(kind_ty):
+        val = True if k == "Bool" else (1.5 if "Float" in k or k in ("Half",) else 3)
+        res = c13.enum_run(f, fn, [(k, val), None], kind_ty=kind_ty)
+        if res[0] == "unreadable":
+            chk.note("C08.kinds: parse_rootdefinition_enum is not readable on an enumerator of type %s (%s); the contradiction rule decides" % (k, res[1]))
+            return False
+        n += 1
+        ok = res[0] != "aborts"
+        chk.ob("C08.kinds/%s/%s" % (owner, k), ok, "`enum E { A = <%s value>, B }` is %s" % (k, "accepted" if isinstance(res[1], I.Enum) and res[1].variant == "Ok" else "refused with a diagnostic") if ok else
+               "`enum E { A = <%s value>, B }` aborts the compiler (%s): an initialiser type the definition admits has no arm in the auto-increment match" % (k, res[1]), where(fn),
+               sample={"fn": owner, "admitted": k})
+    chk.floor("C08.floor/admitted-kinds", n, 4, "scalar types tried as an enumerator's type", "rssl_typer")
+    return True
+
 
 def rule_admitted_kinds(chk):
     """A contradiction rule: where a function admits values by an allow-list of scalar types (`TypeLayer::Scalar(X) |
